@@ -3,7 +3,7 @@
    the plain and compact entry records.  The walk over the enclosing chunks and the listings built from the entries are
    checked by the oracle on generated tables; reference resolution is C29, locales are C30. *)
 From Coq Require Import ZArith List Bool.
-Require Import V.Lib.Val V.Lib.Result V.Lib.Struct V.Axml.PoolModel V.Axml.ArscTypeModel V.Axml.ArscTypeProofs V.Axml.ArscComplex V.Axml.PoolProofs V.Axml.ArscTypeChunk V.Axml.ArscTableModel V.Axml.ArscTableProofs.
+Require Import V.Lib.Val V.Lib.Result V.Lib.Struct V.Axml.PoolModel V.Axml.ArscTypeModel V.Axml.ArscTypeProofs V.Axml.ArscComplex V.Axml.PoolProofs V.Axml.ArscTypeChunk V.Axml.ArscTypeChunkEnc V.Axml.ArscTableModel V.Axml.ArscTableProofs V.Axml.ArscTablesMulti.
 Require V.Axml.ArscTableModel.   (* the stream table-walk of tools/props/c28.py evaluates the model of the walk over the table *)
 Import ListNotations.
 Open Scope Z_scope.
@@ -83,3 +83,36 @@ Example C28_table_nonvacuous :
          pk_types := [{| t_id := 1; t_flags := 0; t_count := 2;
                          t_entries := [{| e_id := 2130771968; e_size := 8; e_flags := 0; e_index := 0; e_payload := Plain 3 0 |}] |}] |}].
 Proof. exact table_example. Qed.
+
+(* ---- the three encodings of the offset array; any number of packages ---- *)
+(* 16-bit offsets (FLAG_OFFSET16) and sparse type chunks (FLAG_SPARSE), anywhere in a file, are read back as exactly the
+   entries of their slots *)
+Theorem C28_type_chunk_with_16_bit_offsets_is_read_back : forall pre tid S tail slots rest pkg,
+  52 <= S < 65516 -> len tail = S - 4 -> Forall wf_slot slots -> len (body_bytes slots) < 4 * 65535 -> 20 + S + 2 * Z.of_nat (length slots) + len (body_bytes slots) < 4294967295 ->
+  parse_type_chunk (pre ++ type_chunk_bytes_gen tid 2 (Z.of_nat (length slots)) (b32 S ++ tail) (flat_map enc16 (slot_offsets 0 slots)) slots ++ rest) (len pre) pkg =
+  Ok {| t_id := tid; t_flags := 2; t_count := Z.of_nat (length slots); t_entries := expected (pkg * 16777216 + tid * 65536) 0 slots |}.
+Proof. exact type_chunk_offset16. Qed.
+Print Assumptions C28_type_chunk_with_16_bit_offsets_is_read_back.
+Theorem C28_sparse_type_chunk_is_read_back : forall pre tid S tail slots rest pkg,
+  52 <= S < 65516 -> len tail = S - 4 -> Forall wf_slot slots -> len (body_bytes slots) < 4 * 65536 -> Z.of_nat (length slots) <= 65536 ->
+  let items := sparse_items 0 0 slots in
+  parse_type_chunk (pre ++ type_chunk_bytes_gen tid 1 (Z.of_nat (length items)) (b32 S ++ tail) (flat_map enc_sparse items) slots ++ rest) (len pre) pkg =
+  Ok {| t_id := tid; t_flags := 1; t_count := Z.of_nat (length items); t_entries := expected (pkg * 16777216 + tid * 65536) 0 slots |}.
+Proof. exact type_chunk_sparse. Qed.
+Print Assumptions C28_sparse_type_chunk_is_read_back.
+(* a table with ANY number of packages, each with any sequence of type specs and types in any of the three encodings: parse_table
+   returns the packages in file order (packages of one name merged into one list, as ARSCParser keeps them) with exactly the
+   encoded types and entries *)
+Theorem C28_tables_are_read_back : forall mu mss mpad ds,
+  Forall wf_pkg ds -> pool_bound mu mss -> 12 + pool_size mu mss mpad + len (pkgs_bytes ds) < 4294967296 ->
+  parse_table (table_bytes_multi mu mss mpad ds) = Ok (collect ds []).
+Proof. exact tables_exact. Qed.
+Print Assumptions C28_tables_are_read_back.
+Theorem C28_type_chunks_of_either_other_encoding_are_chunks_of_the_walk : forall tpool tid cz tail slots,
+  52 <= cz < 65516 -> len tail = cz - 4 -> Forall wf_slot slots -> (exists s, get_string tpool (tid - 1) = Ok s) ->
+  (len (body_bytes slots) < 4 * 65535 -> 20 + cz + 2 * Z.of_nat (length slots) + len (body_bytes slots) < 4294967295 ->
+   wf_pchunk tpool (PTypeG tid 2 (Z.of_nat (length slots)) cz tail (flat_map enc16 (slot_offsets 0 slots)) slots)) /\
+  (len (body_bytes slots) < 4 * 65536 -> Z.of_nat (length slots) <= 65536 ->
+   wf_pchunk tpool (PTypeG tid 1 (Z.of_nat (length (sparse_items 0 0 slots))) cz tail (flat_map enc_sparse (sparse_items 0 0 slots)) slots)).
+Proof. exact (fun tpool tid cz tail slots H1 H2 H3 H6 => conj (fun H4 H5 => wf_ptype_offset16 tpool tid cz tail slots H1 H2 H3 H4 H5 H6)
+                                                              (fun H4 H5 => wf_ptype_sparse tpool tid cz tail slots H1 H2 H3 H4 H5 H6)). Qed.
